@@ -4,14 +4,15 @@ under /verif/seeded/<name>/ (patch.diff, demo.rs, demo.md, meta.json) with my ow
 import json, os, shutil, sys, re
 ID, var, name, caught = sys.argv[1:5]
 missed = sys.argv[5] if len(sys.argv) > 5 else ""
-src = "/tmp/wt/%s.out/%s" % (ID, var)
+ROUND = os.environ.get("SEED_ROUND_DIR", "/tmp/wt")
+src = "%s/%s.out/%s" % (ROUND, ID, var)
 dst = "/verif/seeded/%s" % name
 os.makedirs(dst, exist_ok=True)
 for f in ("patch.diff", "demo.rs", "demo.md"):
     if os.path.exists(os.path.join(src, f)):
         shutil.copy(os.path.join(src, f), os.path.join(dst, f))
 meta = json.load(open(os.path.join(src, "meta.json")))
-rp = "/tmp/wt/%s.%s.result" % (ID, var)
+rp = "%s/%s.%s.result" % (ROUND, ID, var)
 conf = [l for l in open(rp).read().splitlines() if l.startswith("RESULT")] if os.path.exists(rp) else []
 idx = 0
 meta_out = {
